@@ -50,14 +50,6 @@ class JErr(Exception):
         self.v = v
 
 
-class EarlyReturn(Exception):
-    """(propagate x dead-fiber): the current fiber returns x at once"""
-
-    def __init__(self, v):
-        Exception.__init__(self)
-        self.v = v
-
-
 class Unspecified(Exception):
     """the program reaches behaviour the model refuses to predict (see NOTES.md)"""
 
@@ -241,8 +233,6 @@ class VM(object):
             sig, val = OK, e.value
         except JErr as e:
             sig, val = ERROR, e.v
-        except EarlyReturn as e:
-            sig, val = OK, e.v
         f.status = STAT[sig]
         f.last = val
         return sig, val
@@ -303,6 +293,18 @@ class VM(object):
         if t.status in NONRESUMABLE:
             self.features.add("resume-refused-" + t.status)
             raise JErr(E)
+        if cancel:
+            # a fiber that (transitively) waits on the current fiber cannot be cancelled from here
+            seen = set()
+            c = t.child
+            while c is not None:
+                if c is f:
+                    self.features.add("cancel-refused-waiting-on-current")
+                    raise JErr(E)
+                if id(c) in seen:
+                    raise Unspecified("cancel-cyclic-child-chain")
+                seen.add(id(c))
+                c = c.child
         f.child = t
         if cancel:
             sig, val = self.cont_signal(t, v, ERROR)
@@ -317,15 +319,12 @@ class VM(object):
     def op_propagate(self, f, x, t):
         if not isinstance(t, Fiber):
             raise JErr(E)
-        if t.status == NEW or t.status == ALIVE:
+        if t.status == NEW or t.status == ALIVE or t.status == "dead":
+            # "Propagate a signal from a fiber": a fiber that has not signalled has nothing to propagate
+            self.features.add("propagate-refused-" + t.status)
             raise JErr(E)
         sig = SIG_OF_STATUS[t.status]
         f.child = t
-        if sig == OK:
-            if f.cdepth:
-                raise Unspecified("propagate-dead-in-c-callback")
-            self.features.add("propagate-dead-returns")
-            raise EarlyReturn(x)
         if sig == ERROR:
             raise JErr(x)
         if f.cdepth:
